@@ -75,6 +75,15 @@ CHECKS = {
         note=TB + "C18: 'independent randomness across chains' rests on C07/C08; multi-chain runs are checked for the chain axis and distinct chains only.",
         technique="Lean 4 proof + differential correspondence (same-key slice identity)",
         design="§3 C18"),
+    "C19": dict(
+        text="Lean theorems about the State-interpreter model (every store, path, iteration/lane context, lane count, scan length>=1): later write wins "
+             "and is local, a named save lands under its enclosing namespaces, vmapped saves are batched per lane, scan-body saves are stacked along "
+             "the iteration axis under the enclosing namespaces; proved counterexample for the pre-repair root merge. Tie: generated placements "
+             "(namespaces, nested scans, vmap/modular_vmap, overwrites, leaf mode) run eagerly, under jit and under seed: result vs unwrapped function, "
+             "collected dict vs an independent reference and vs the compiled Lean model.",
+        note=TB + "C19: transparency of the wrapper and the batching of tag/namespace primitives under jax.vmap are runtime behaviour, checked by the correspondence only; save inside cond branches is outside the claim.",
+        technique="Lean 4 proof + differential correspondence on generated placements (eager/jit/seed)",
+        design="§3 C19"),
 }
 
 NOT_YET = "check not built yet in this session (planned, see DESIGN.md §3/§6); not claimed"
